@@ -389,6 +389,36 @@ fn adapters<B: crate::backend::Backend, P: crate::prims::Prims>(opts: &Opts, rep
             if r::public_verify::<P>(B::VER, &pk_raw, &body, &f, &aad).as_deref() != Some(&msg[..]) {
                 rep.violation(&format!("C15|{}|public|digest-adapter-saw-different-bytes", B::NAME), json!({"backend": B::NAME, "message_len": ml, "footer_len": fl, "assertion_len": al}));
             }
+            // and the verifying side saw the large input too
+            let _ = guard(|| kp.open(&t, &aad));
+        }
+        // small inputs right after the large one, on the same thread: nothing of the large encoding may linger
+        for small in 0..24usize {
+            let (m2, f2) = (rng.bytes(small), rng.bytes(small % 5));
+            let a2 = if B::HAS_AAD { rng.bytes(small % 3) } else { vec![] };
+            let d = || json!({"backend": B::NAME, "message_len": small, "after_lengths": [ml, fl, al]});
+            let want = join_token(&kl.header(), &r::local_seal::<P>(B::VER, &key, &nonce, &m2, &f2, &a2), &f2);
+            if !matches!(guard(|| kl.seal_with_nonce(&nonce, &m2, &f2, &a2)), Ok(Ok(t)) if t == want) {
+                rep.violation(&format!("C15|{}|local|mac-adapter-saw-different-bytes:small-after-large", B::NAME), d());
+            }
+            if !matches!(guard(|| kl.open(&want, &a2)), Ok(Ok((m, _))) if m == m2) {
+                rep.violation(&format!("C15|{}|local|mac-adapter-saw-different-bytes:open:small-after-large", B::NAME), d());
+            }
+            if B::VER != 1 || small % 8 == 0 {
+                match guard(|| kp.seal(&m2, &f2, &a2)) {
+                    Ok(Ok(t)) => {
+                        let (_, body, f) = split_token(&t);
+                        if r::public_verify::<P>(B::VER, &pk_raw, &body, &f, &a2).as_deref() != Some(&m2[..]) {
+                            rep.violation(&format!("C15|{}|public|digest-adapter-saw-different-bytes:small-after-large", B::NAME), d());
+                        }
+                        if !matches!(guard(|| kp.open(&t, &a2)), Ok(Ok((m, _))) if m == m2) {
+                            rep.violation(&format!("C15|{}|public|digest-adapter-saw-different-bytes:verify:small-after-large", B::NAME), d());
+                        }
+                    }
+                    _ => rep.violation(&format!("C15|{}|public|sign-failed:small-after-large", B::NAME), d()),
+                }
+            }
+            rep.case(&format!("{}.adapter-through-tag.small-after-large", B::NAME), fnv_parts(&[B::NAME.as_bytes(), &(ml as u64).to_le_bytes(), &(fl as u64).to_le_bytes(), &(al as u64).to_le_bytes(), &[small as u8]]), true);
         }
     }
 }
@@ -498,7 +528,7 @@ pub fn run(opts: &Opts) {
     rep.set("sum:collision_table_entries", json!(table.len()));
     rep.set(
         "rule",
-        json!("huge pieces: a piece of 2^31-1 .. 5*2^31 zero bytes (1-3 fragments) between two short pieces through a sink that keeps only the short writes: count and every length prefix must be the full 64-bit value; (adapters: every second grid point and every fourth dense length is repeated under the suffixed payload type so the header piece changes within the process) piece counts 0..8 (monomorphised) x 0..4 fragments per piece x fragment lengths {0,1,7,8,9,63,64,65,255,256,600} x contents {zeros, bytes shaped like LE64 lengths, ff, random}, plus random lists and boundary-shifted / piece-dropped variants with identical concatenation; oracle = independent encoder over whole pieces, independent decoder, and a table of all encodings seen (two different piece lists must never collide); a recording WriteBytes must receive the same byte sequence as a Vec; distinct = distinct (fragment shape, piece contents)"),
+        json!("small after large: 24 small inputs sealed / signed / opened right after each 66-70 kB input on the same thread; huge pieces: a piece of 2^31-1 .. 5*2^31 zero bytes (1-3 fragments) between two short pieces through a sink that keeps only the short writes: count and every length prefix must be the full 64-bit value; (adapters: every second grid point and every fourth dense length is repeated under the suffixed payload type so the header piece changes within the process) piece counts 0..8 (monomorphised) x 0..4 fragments per piece x fragment lengths {0,1,7,8,9,63,64,65,255,256,600} x contents {zeros, bytes shaped like LE64 lengths, ff, random}, plus random lists and boundary-shifted / piece-dropped variants with identical concatenation; oracle = independent encoder over whole pieces, independent decoder, and a table of all encodings seen (two different piece lists must never collide); a recording WriteBytes must receive the same byte sequence as a Vec; distinct = distinct (fragment shape, piece contents)"),
     );
     rep.set("adapters", json!("the private digest/MAC/stream-verifier adapters of all six backends are observed through the tag / signature: message, footer and assertion lengths from {0,1,7,8,9,63,64,65,127,128,129,255,256,257,600,5000}, local tokens compared byte for byte with the reference (independent PAE), signatures verified by an independent verifier over the independent PAE"));
     rep.finish(opts);
